@@ -36,13 +36,24 @@ CORPUS = [
      "note": "OperationRegion(A___.B___.A___, 0, Device(B___){}, One): same through the adopted offset argument"},
     {"id": "r-relocation-adopted-dataregion", "hex": "5b882f03415f5f5f425f5f5f415f5f5f5b8205425f5f5f0101",
      "note": "DataTableRegion(A___.B___.A___, Device(B___){}, One, One): same through the adopted signature argument"},
+    {"id": "r-deep-refof-chain", "rep": ["7001", ["71", 2300000], "60"],
+     "note": "Store(One, RefOf(RefOf(...Local0))) with 2 300 000 nested RefOf: the parser recurses once per byte (parseTarget -> parseObjectArgs), about 0.5 KiB of stack per level; this table exhausts even the Go runtime's default 1 GB goroutine stack (fatal error: stack overflow)"},
     {"id": "r-partial-method-print", "hex": "14",
      "note": "a lone Method opcode is rejected, the half-built Method object stays in the tree and PrettyPrint dereferences its missing flags argument"},
 ]
 
+def _corpus_hex(c):
+    if "hex" in c:
+        return c["hex"]
+    return "".join(x if isinstance(x, str) else x[0] * x[1] for x in c["rep"])
+
+
 ASSUME = [
     "the input space is all byte strings: no specification enumerates it; exhaustive only over the single-mutation plans of the seed programs (thorough tier), sampling elsewhere",
-    "non-termination is decided by CPU time of an isolated child process (5 s per started 8 KiB of input; normal < 1 ms), unbounded memory by 3 GiB of live heap, stack exhaustion by debug.SetMaxStack(32 MiB)",
+    "non-termination is decided by CPU time of an isolated child process (5 s per started 8 KiB of input; normal < 1 ms), unbounded memory by 3 GiB of live heap, stack exhaustion by debug.SetMaxStack(32 MiB per started 8 KiB of input, never more than the Go runtime's default maximum of 1 GB)",
+    "sizes: generated inputs reach 64 KiB (thorough; 1 KiB quick) plus one pinned 2.3 MB table; tables near the 4 GiB limit of the 32-bit length field (offset arithmetic wrapping at 2^32) are physically out of reach and not covered; a length field that claims more bytes than are mapped is outside the quantifier (the bytes ARE the table); tables shorter than their 36-byte header are covered from 8 bytes (the end of the length field) on",
+    "byte substitution: all 256 values on every byte of the directed seeds and a sample (thorough) / of one rotating directed seed (quick); 25 structure-bearing values and +-1..3 elsewhere; every truncation and bit flip of the two small shipped tables, every 4th truncation point of the DSDT per seed (phase = seed mod 4), bit flips / substitutions of the DSDT only sampled",
+    "splices: a package of the program inserted at every byte position, and every prefix joined with the next seed (from its start or one of its packages); arbitrary pairs of programs only sampled (leg T donors)",
     "stray reads are observable only where they cross the PROT_NONE page placed right after each table (or are recorded as a byte slice of the tree)",
     "InBounds is demanded of the objects reachable from the root scope; WellFormed of every live pool slot",
     "tables are parsed into a tree holding the five default scopes (table handle 42), as the repository's own tests do; the SSDT is mutated after the pristine DSDT has been loaded; every fifth leg-T input is followed by the pristine SSDT on the same parser and tree (a rejected table does not end the use of either)",
@@ -115,7 +126,7 @@ def _validate(ctx, leg, path, devname, kf_inputs, parallel=None, timeout=1200):
     return acc, nev, mism
 
 
-LEGS = {"g": "G-plans", "r": "R-corpus", "s": "T-small", "t": "T-tables", "p": "pinned", "x": "replay"}
+LEGS = {"g": "G-plans", "r": "R-corpus", "s": "T-small", "t": "T-tables", "z": "T-scale", "w": "T-sweep", "p": "pinned", "x": "replay"}
 
 
 def _leg(ev):
@@ -156,8 +167,11 @@ def run(ctx):
     r = ctx.model_check(d, "AmlRobustModel", "MCAmlRobustQuick" if q else "MCAmlRobustFull", workers=8, timeout=900, coverage=not q)
     if r.coverage_zero:
         raise vlib.Broken("design model: actions never taken in the scope (vacuous bound): %s" % r.coverage_zero)
+    if not q:
+        # an alphabet in which packages can nest (a PkgLength of 5): the nesting-depth limit is exercised
+        ctx.model_check(d, "AmlRobustModel", "MCAmlRobustDeep", workers=8, timeout=900)
     for b in (["NoCycleGuard", "ByteListUnbounded"] if q else
-              ["NoPkgEndCheck", "ByteListUnbounded", "NoCycleGuard", "AppendBeforeDetach", "NoPassBound"]):
+              ["NoPkgEndCheck", "ByteListUnbounded", "NoCycleGuard", "AppendBeforeDetach", "NoPassBound", "NoDepthLimit"]):
         ctx.expect_model_violation(d, "AmlRobustModel", "MCAmlRobustBug_" + b, workers=8, timeout=600)
 
     # ---- leg G: seeds -> TLC enumerates the mutation plans -> real parser
@@ -173,7 +187,7 @@ def run(ctx):
         directed = [s for s in seeds if '"name":"dir#' in s]
         gen = [s for s in seeds if '"name":"gen' in s]
         frag = [s for s in seeds if '"name":"gen' not in s and '"name":"dir#' not in s]
-        used = rnd.sample(gen, min(12, len(gen))) + rnd.sample(frag, min(8, len(frag)))   # the directed seeds are always in
+        used = rnd.sample(gen, min(4, len(gen))) + rnd.sample(frag, min(3, len(frag)))   # the directed seeds are always in
         used = directed + ([s for s in used if len(json.loads(s)["b"]) <= 64] or used[:4])
     seeds_path = os.path.join(ctx.work, "seeds.ndjson")
     with open(seeds_path, "w") as f:
@@ -195,6 +209,28 @@ def run(ctx):
                                  timeout=1800, name="emit-plans-2")
             ctx.cov["legs"]["emit-plans-2"].update({"seeds": len(short), "cases": r2.distinct})
             case_files.append(cases2)
+    # byte substitution with ALL 256 values (every opcode in every position): quick on one directed seed that
+    # rotates with the seed, thorough on every directed seed and a sample of the others
+    directed_all = [s for s in seeds if '"name":"dir#' in s]
+    if q:
+        cand = [s for s in directed_all if len(json.loads(s)["b"]) <= 24] or directed_all or seeds
+        allsub = [cand[ctx.seed % len(cand)]]
+    else:
+        rest = [s for s in seeds if '"name":"dir#' not in s and len(json.loads(s)["b"]) <= 40]
+        allsub = directed_all + random.Random(ctx.seed).sample(rest, min(8, len(rest)))
+    seeds3, cases3 = os.path.join(ctx.work, "seeds3.ndjson"), os.path.join(ctx.work, "cases3.ndjson")
+    with open(seeds3, "w") as f:
+        f.writelines(allsub)
+    r4 = ctx.model_check(d, "AmlRobustPlans", "AmlRobustPlansAll", workers=1, env={"SEEDS": seeds3, "CASES": cases3}, timeout=1800, name="emit-plans-all256")
+    ctx.cov["legs"]["emit-plans-all256"].update({"seeds": len(allsub), "cases": r4.distinct})
+    case_files.append(cases3)
+    if not q:
+        # every truncation point and every bit flip of the two small shipped tables (whole tables as seeds)
+        seeds4, cases4 = os.path.join(ctx.work, "seeds4.ndjson"), os.path.join(ctx.work, "cases4.ndjson")
+        _harness(ctx, "TestVerifC12Seeds", {"C12_SEEDS_OUT": seeds4, "C12_SEEDS_TABLES": 1}, 300)
+        r5 = ctx.model_check(d, "AmlRobustPlans", "AmlRobustPlansTab", workers=1, env={"SEEDS": seeds4, "CASES": cases4}, timeout=1800, name="emit-plans-tables")
+        ctx.cov["legs"]["emit-plans-tables"].update({"cases": r5.distinct})
+        case_files.append(cases4)
     # relocation shapes over the name alphabet {A___, B___}: enumerated and encoded by TLC (AmlRobustShapes)
     shapes = os.path.join(ctx.work, "shapes_all.ndjson")
     r3 = ctx.model_check(d, "AmlRobustShapes", "AmlRobustShapes", workers=1, env={"CASES": shapes}, timeout=600, name="emit-shapes")
@@ -203,17 +239,20 @@ def run(ctx):
             lines = f.readlines()
         shapes = os.path.join(ctx.work, "shapes.ndjson")
         with open(shapes, "w") as f:
-            f.writelines(random.Random(ctx.seed).sample(lines, min(4000, len(lines))))
-    ctx.cov["legs"]["emit-shapes"].update({"cases": r3.distinct, "replayed": 4000 if q else r3.distinct})
+            f.writelines(random.Random(ctx.seed).sample(lines, min(2500, len(lines))))
+    ctx.cov["legs"]["emit-shapes"].update({"cases": r3.distinct, "replayed": 2500 if q else r3.distinct})
     case_files.append(shapes)
     # ---- leg R: pinned reproducers;  leg T: seeded random driver;  all in one harness run with leg G
     corpus = os.path.join(ctx.work, "corpus.ndjson")
     with open(corpus, "w") as f:
         for c in CORPUS:
-            f.write(json.dumps({"id": c["id"], "src": "corpus: " + c["note"], "hex": c["hex"], "pre": c.get("pre", [])}) + "\n")
+            f.write(json.dumps({"id": c["id"], "src": "corpus: " + c["note"], "hex": _corpus_hex(c), "pre": c.get("pre", [])}) + "\n")
     trace = os.path.join(ctx.work, "trace.ndjson")
-    nsmall, ntables = (20000, 60) if q else (400000, 1500)
-    _harness(ctx, "TestVerifC12Run", {"C12_CASES": corpus + ":" + ":".join(case_files), "C12_ID_PREFIX": "g", "C12_GEN": "small:%d,tables:%d" % (nsmall, ntables),
+    nsmall, ntables = (12000, 48) if q else (300000, 1200)
+    # scale: long / deep / wide programs up to that many bytes and tables shorter than their header;
+    # sweep: every 4th truncation point of the DSDT (phase = seed mod 4)
+    extra = ",scale:1024" if q else ",scale:65536,sweep:4"
+    _harness(ctx, "TestVerifC12Run", {"C12_CASES": corpus + ":" + ":".join(case_files), "C12_ID_PREFIX": "g", "C12_GEN": "small:%d,tables:%d" % (nsmall, ntables) + extra,
                                       "C12_TRACE_OUT": trace, "C12_PAR": 8}, 2400)
 
     # ---- leg V: TLC judges every event (one monitor run over all legs; few JVMs: the machine is shared)
@@ -228,19 +267,20 @@ def run(ctx):
     # the pinned reproducers are judged one per monitor run (a monitor stops at its first mismatch)
     # (and the monitor reads its whole chunk into memory: parts of at most 300 000 events, eight chunks each)
     rtrace = os.path.join(ctx.work, "trace_r.ndjson")
-    parts, fe, n_in_part = [], None, 0
+    parts, fe, n_in_part, bytes_in_part = [], None, 0, 0
     with open(trace) as f, open(rtrace, "w") as fr:
         for line in f:
             if line.startswith('{"k":"parse","id":"r-'):
                 fr.write(line)
                 continue
-            if fe is None or n_in_part >= 300000:
+            if fe is None or n_in_part >= 300000 or bytes_in_part >= 200 << 20:
                 if fe:
                     fe.close()
                 parts.append(os.path.join(ctx.work, "trace_e%d.ndjson" % len(parts)))
-                fe, n_in_part = open(parts[-1], "w"), 0
+                fe, n_in_part, bytes_in_part = open(parts[-1], "w"), 0, 0
             fe.write(line)
             n_in_part += 1
+            bytes_in_part += len(line)
     if fe:
         fe.close()
     open(trace, "w").close()          # free the disk space but keep the entry: vlib numbers its directories by listdir(work)
